@@ -16,7 +16,7 @@ ASSUMPTIONS = ["planar: exact reference (1e-9); lat/lon: positions and distances
                "cut-off comparisons in lat/lon use the package's own reported distance (no decision depends on the tolerance)",
                "lat/lon probabilities are not replayed (C15 ties them to the planar model)"]
 TOLERANCES = {"planar": 1e-9, "latlon_m": "0.25 + 1e-6 L"}
-BUDGET = {"quick": {"shards": 8, "examples": 500}, "thorough": {"shards": 16, "examples": 9000}}
+BUDGET = {"quick": {"shards": 8, "examples": 900}, "thorough": {"shards": 16, "examples": 9000}}
 
 
 def lattice_size(matcher):
